@@ -18,11 +18,14 @@ for line in det.split('\n'):
     if m and results:
         results[cur]['classes'].append(m.group(1))
 meta = json.load(open(os.path.join(src, 'meta.json')))
+if 'needs_to_manifest' in meta:  # re-filing an already kept change
+    meta = {'property': meta['property'], 'title': meta['title'], 'what': meta['what'], 'needs': meta['needs_to_manifest'], 'ran': meta['author_ran']}
 dst = f'/verif/seeded/{sid}'
 os.makedirs(dst, exist_ok=True)
-for f in os.listdir(src):
-    if f != 'meta.json':
-        shutil.copy(os.path.join(src, f), dst)
+if os.path.realpath(src) != os.path.realpath(dst):
+    for f in os.listdir(src):
+        if f != 'meta.json':
+            shutil.copy(os.path.join(src, f), dst)
 meta_out = {
     'id': sid,
     'property': meta.get('property'),
